@@ -11,6 +11,7 @@
   `draw_is_reported_as_cp`).
 -/
 import Walleye.Proofs.RootCorollaries
+import Walleye.Proofs.MateTheory
 import Walleye.Model.SearchChess
 namespace Walleye
 
@@ -70,6 +71,186 @@ theorem mate_in_one_played (E : Nat) (hg : GameOK g E) (hord : OrdPerm ord) (fue
     have := negamax_gt_unless_mated g E hg fuel (curDepth - 1) 1 t b (by push_cast; omega) hnm
     push_cast at this
     omega
+
+/-! ### mate announcements are true (iterations 1–3) -/
+
+/-- **`score mate N` is true** for an iteration (1, 2 or 3) that runs to its end, for every game with a
+    bounded evaluation, every permuting ordering oracle, every repetition table: a final score above
+    the evaluation bound is MATE − (2n − 1) for some n ≥ 1, is printed as `mate n`, and the side to
+    move has a move after which the opponent is mated within n − 1 moves whatever it plays — a forced
+    mate in at most n moves really exists; a final score below minus the bound is −(MATE − 2n), is
+    printed as `mate −n`, and after EVERY move of the side to move the opponent can force mate in at
+    most n moves — the side to move really is mated within n moves against best play.  (`Win`,
+    `Lose`: Proofs/MateTheory.lean, in terms of the game's own move generation and check test, which
+    C01/C06 tie to the rules.) -/
+theorem mate_announcements_are_true_upto3 (E : Nat) (hg : GameOK g E) (hord : OrdPerm ord) (fuel curDepth : Nat)
+    (first : P) (t : DrawTable) (hcd : curDepth - 1 < 3) (hE : (E : Int) + 1 + (fuel + 1) < Gen.mateScore)
+    (l : List P) (hl : l ≠ []) (best : Option P) :
+    Triple (St t) (rootLoop g ord (fuel + 1) curDepth first l (-Gen.posInf) best)
+      (fun r _ => ∃ A B, r = some (A, B) ∧
+        ((E : Int) < A → ∃ n : Nat, 1 ≤ n ∧ A = Gen.mateScore - (2 * n - 1) ∧
+            Int.tdiv (Gen.mateScore - A + 1) 2 = n ∧ ∃ m ∈ l, Lose g (n - 1) m) ∧
+        (A < -(E : Int) → ∃ n : Nat, 1 ≤ n ∧ A = -(Gen.mateScore - 2 * n) ∧
+            Int.tdiv (Gen.mateScore + A) (-2) = -(n : Int) ∧ ∀ m ∈ l, Win g n m)) := by
+  refine ⟨?_⟩
+  intro s r s' hst he
+  obtain ⟨_, A, B, hr, hA, _, _⟩ := (rootLoop_triple g ord E hg hord (fuel + 1) curDepth first t hcd hE l (-Gen.posInf) best
+    (Int.le_refl _) (by decide)).run s r s' hst he
+  have hM : (Gen.mateScore : Int) = 100000 := rfl
+  have hP : (Gen.posInf : Int) = 9999999 := rfl
+  have hchar := fun x => negamax_mate_char g E hg (fuel + 1) (curDepth - 1) 1 t x (by push_cast; omega)
+  have hrange := fun x => negamax_range g E hg (fuel + 1) (curDepth - 1) 1 t x (by push_cast; omega)
+  -- the maximum is attained (the list is not empty)
+  have hatt : ∃ x ∈ l, A = - Spec.negamax g (fuel + 1) (curDepth - 1) 1 t x := by
+    rcases maxNeg_attained (Spec.negamax g (fuel + 1) (curDepth - 1) 1 t) l (-Gen.posInf) with h | ⟨x, hx, h⟩
+    · exfalso
+      cases l with
+      | nil => exact hl rfl
+      | cons y ys =>
+        have h1 := maxNeg_mem (Spec.negamax g (fuel + 1) (curDepth - 1) 1 t) (y :: ys) (-Gen.posInf) y (by simp)
+        have h2 := hrange y
+        push_cast at h2
+        omega
+    · exact ⟨x, hx, by rw [hA, h]⟩
+  obtain ⟨xs, hxs, hv⟩ := hatt
+  refine ⟨A, B, hr, ?_, ?_⟩
+  · intro hpos
+    obtain ⟨k, hk, hlose⟩ := (hchar xs).2 (by omega)
+    refine ⟨k + 1, by omega, by rw [hv, hk]; push_cast; omega, ?_, xs, hxs, by simpa using hlose⟩
+    have : Gen.mateScore - A + 1 = 2 * ((k : Int) + 1) := by rw [hv, hk]; push_cast; omega
+    rw [this, Int.tdiv_eq_ediv_of_nonneg (by omega)]
+    push_cast
+    omega
+  · intro hneg
+    obtain ⟨ns, hns1, hnsv, _⟩ := (hchar xs).1 (by omega)
+    refine ⟨ns, hns1, by rw [hv, hnsv]; push_cast; omega, ?_, ?_⟩
+    · have : Gen.mateScore + A = 2 * (ns : Int) := by rw [hv, hnsv]; push_cast; omega
+      rw [this, Int.tdiv_neg, Int.tdiv_eq_ediv_of_nonneg (by omega)]
+      omega
+    · intro x hx
+      have hle := maxNeg_mem (Spec.negamax g (fuel + 1) (curDepth - 1) 1 t) l (-Gen.posInf) x hx
+      rw [← hA] at hle
+      obtain ⟨nx, _, hnxv, hwin⟩ := (hchar x).1 (by omega)
+      apply win_mono_le g (n := nx) _ x hwin
+      rw [hv, hnsv, hnxv] at hle
+      push_cast at hle
+      omega
+
+/-! ### not playing into a mate in one (iterations 2 and 3) -/
+
+/-- the opponent (to move at `x`) has a move that checkmates at once -/
+theorem win_one (x : P) : Win g 1 x ↔ ∃ r ∈ g.gen x .all, Mated g r := by
+  rw [win_succ]
+  constructor
+  · rintro ⟨r, hr, hl⟩; exact ⟨r, hr, (lose_zero g r).mp hl⟩
+  · rintro ⟨r, hr, hm⟩; exact ⟨r, hr, (lose_zero g r).mpr hm⟩
+
+/-- value of a root move at child depth ≥ 1: exactly MATE − 2 if the opponent then mates in one,
+    strictly less otherwise (no position of the two plies counted as a repetition) -/
+theorem value_of_move_into_mate (E : Nat) (hg : GameOK g E) (fuel d1 : Nat) (t : DrawTable) (x : P) (hd : 1 ≤ d1)
+    (hE : (E : Int) + 1 + (fuel + 2) < Gen.mateScore) :
+    (¬ Win g 1 x → Spec.negamax g (fuel + 2) d1 1 t x < Gen.mateScore - 2) ∧
+    (Win g 1 x → t.isThreefold (g.key x) = false →
+      (∀ r ∈ g.gen x .all, ((t.add (g.key x)).getD t).isThreefold (g.key r) = false) →
+      Spec.negamax g (fuel + 2) d1 1 t x = Gen.mateScore - 2) := by
+  have hM : (Gen.mateScore : Int) = 100000 := rfl
+  have hup := (negamax_range g E hg (fuel + 2) d1 1 t x (by push_cast; omega)).2
+  have hd0 : (if d1 = 0 then 1 else d1) = d1 := by rw [if_neg (by omega)]
+  have hnq : ¬ (d1 = 0 ∧ ¬ g.inCheck x = true) := fun h => by omega
+  constructor
+  · intro hnw
+    cases h3 : t.isThreefold (g.key x) with
+    | true => rw [negamax_repeated g (fuel + 1) d1 1 t x h3]; omega
+    | false =>
+      rw [negamax_succ g (fuel + 1) d1 1 t x h3, hd0]
+      unfold nodeValue
+      simp only [Nat.reduceAdd]
+      rw [if_neg hnq]
+      split
+      · split <;> omega
+      · rename_i m ms hgen
+        have hc : ∀ r ∈ m :: ms, -(Gen.mateScore : Int) ≤ - Spec.negamax g (fuel + 1) (d1 - 1) 2 ((t.add (g.key x)).getD t) r ∧
+            - Spec.negamax g (fuel + 1) (d1 - 1) 2 ((t.add (g.key x)).getD t) r ≤ Gen.mateScore - 3 := by
+          intro r hr
+          have hnm : ¬ (g.gen r .all = [] ∧ g.inCheck r = true) := fun hm =>
+            hnw ((win_one g x).mpr ⟨r, by rw [hgen]; exact hr, hm⟩)
+          have h1 := negamax_gt_unless_mated g E hg fuel (d1 - 1) 2 ((t.add (g.key x)).getD t) r (by push_cast; omega) hnm
+          have h2 := (negamax_range g E hg (fuel + 1) (d1 - 1) 2 ((t.add (g.key x)).getD t) r (by push_cast; omega)).2
+          push_cast at h1 h2
+          omega
+        have := (maxNeg_bound (Spec.negamax g (fuel + 1) (d1 - 1) 2 ((t.add (g.key x)).getD t)) ms
+          (- Spec.negamax g (fuel + 1) (d1 - 1) 2 ((t.add (g.key x)).getD t) m) (-Gen.mateScore) (Gen.mateScore - 3)
+          (hc m (by simp)) (fun r hr => hc r (by simp [hr]))).2
+        omega
+  · intro hw h3 hr3
+    obtain ⟨r, hr, hmated⟩ := (win_one g x).mp hw
+    have hlow : Gen.mateScore - 2 ≤ Spec.negamax g (fuel + 2) d1 1 t x := by
+      rw [negamax_succ g (fuel + 1) d1 1 t x h3, hd0]
+      unfold nodeValue
+      simp only [Nat.reduceAdd]
+      rw [if_neg hnq]
+      split
+      · rename_i hgen; rw [hgen] at hr; cases hr
+      · rename_i m ms hgen
+        have hv := negamax_mated g fuel (d1 - 1) 2 ((t.add (g.key x)).getD t) r (hr3 r hr) hmated.1 hmated.2
+        rw [hgen] at hr
+        have hge : - Spec.negamax g (fuel + 1) (d1 - 1) 2 ((t.add (g.key x)).getD t) r ≤
+            Spec.maxNeg (Spec.negamax g (fuel + 1) (d1 - 1) 2 ((t.add (g.key x)).getD t)) ms
+              (- Spec.negamax g (fuel + 1) (d1 - 1) 2 ((t.add (g.key x)).getD t) m) := by
+          rcases List.mem_cons.mp hr with rfl | hr
+          · exact maxNeg_ge _ _ _
+          · exact maxNeg_mem _ _ _ r hr
+        rw [hv] at hge
+        push_cast at hge
+        omega
+    omega
+
+/-- **once its second (or third) iteration has finished the engine does not play into a mate in
+    one if it can avoid it**: if some root move leaves the opponent without an immediate checkmate,
+    the move the iteration remembers leaves the opponent without one too (every game with a bounded
+    evaluation, every permuting oracle; no position within two plies of the root counted as a
+    repetition by the table) -/
+theorem does_not_play_into_mate_in_one (E : Nat) (hg : GameOK g E) (hord : OrdPerm ord) (fuel curDepth : Nat)
+    (first : P) (t : DrawTable) (hcd1 : 1 ≤ curDepth - 1) (hcd : curDepth - 1 < 3)
+    (hE : (E : Int) + 1 + (fuel + 2) < Gen.mateScore) (l : List P) (best : Option P)
+    (hx3 : ∀ x ∈ l, t.isThreefold (g.key x) = false)
+    (hr3 : ∀ x ∈ l, ∀ r ∈ g.gen x .all, ((t.add (g.key x)).getD t).isThreefold (g.key r) = false)
+    (m : P) (hm : m ∈ l) (hsafe : ¬ Win g 1 m) :
+    Triple (St t) (rootLoop g ord (fuel + 2) curDepth first l (-Gen.posInf) best)
+      (fun r _ => ∃ A b, r = some (A, some b) ∧ b ∈ l ∧ ¬ Win g 1 b) := by
+  refine ⟨?_⟩
+  intro s r s' hst he
+  obtain ⟨_, A, B, hr, hA, hB1, _⟩ := (rootLoop_triple g ord E hg hord (fuel + 2) curDepth first t hcd
+    (by push_cast at hE ⊢; omega) l (-Gen.posInf) best (Int.le_refl _) (by decide)).run s r s' hst he
+  have hM : (Gen.mateScore : Int) = 100000 := rfl
+  have hP : (Gen.posInf : Int) = 9999999 := rfl
+  have h0 := maxNeg_mem (Spec.negamax g (fuel + 2) (curDepth - 1) 1 t) l (-Gen.posInf) m hm
+  rw [← hA] at h0
+  have hsm := (value_of_move_into_mate g E hg fuel (curDepth - 1) t m hcd1 hE).1 hsafe
+  obtain ⟨b, hb, hBe, hbv⟩ := hB1 (by omega)
+  refine ⟨A, b, by rw [hr, hBe], hb, fun hw => ?_⟩
+  have := (value_of_move_into_mate g E hg fuel (curDepth - 1) t b hcd1 hE).2 hw (hx3 b hb) (hr3 b hb)
+  omega
+
+/-- a stalemated position (no move, not in check) is never given a mate score by the search
+    specification, at any depth, ply or table: its value is 0 when the node is expanded (remaining
+    depth ≥ 1) and the bounded static evaluation on the horizon — always within the evaluation
+    bound, far outside the mate bands -/
+theorem stalemate_is_never_a_mate_score (E : Nat) (hg : GameOK g E) (fuel d ply : Nat) (t : DrawTable) (p : P)
+    (hgen : g.gen p .all = []) (hchk : g.inCheck p = false) :
+    (-(E : Int) ≤ Spec.negamax g (fuel + 1) d ply t p ∧ Spec.negamax g (fuel + 1) d ply t p ≤ E) ∧
+    (1 ≤ d → Spec.negamax g (fuel + 1) d ply t p = 0) := by
+  cases h3 : t.isThreefold (g.key p) with
+  | true => rw [negamax_repeated g fuel d ply t p h3]; exact ⟨⟨by omega, by omega⟩, fun _ => rfl⟩
+  | false =>
+    rw [negamax_succ g fuel d ply t p h3]
+    unfold nodeValue
+    by_cases hc : d = 0 ∧ ¬ g.inCheck p = true
+    · rw [if_pos hc]
+      exact ⟨qval_bound g E hg qFuel p, fun h => by omega⟩
+    · rw [if_neg hc, hgen]
+      simp only [hchk, Bool.false_eq_true, if_false]
+      exact ⟨⟨by omega, by omega⟩, fun _ => trivial⟩
 
 /-- a draw score (stalemate, repetition) is never printed as a mate -/
 theorem stalemate_not_mate : ¬ ((0 : Int) ≥ Gen.mateScore - Gen.mateWindow) ∧ ¬ ((0 : Int) ≤ -Gen.mateScore + Gen.mateWindow) := by
